@@ -11,6 +11,7 @@ pub mod luarun;
 pub mod pool;
 pub mod printer;
 pub mod project;
+pub mod surface;
 pub mod util;
 
 pub use project::{compile, CompileResult, ErrInfo, Project};
